@@ -58,7 +58,9 @@ func c14MsmRawOf[PT any, V any, PP aimpl.GroupElementPtrLowLevel[PP, V]](val fun
 	}
 }
 
-func c14AuSmul[P algebra.MonoidElement[P]](p P, be []byte) P { return algebrautils.ScalarMul(p, beBytes(be)) }
+func c14AuSmul[P algebra.MonoidElement[P]](p P, be []byte) P {
+	return algebrautils.ScalarMul(p, beBytes(be))
+}
 
 func c14AuMsm[P algebra.MonoidElement[P]](be [][]byte, ps []P) P {
 	scs := make([]beBytes, len(be))
@@ -287,11 +289,39 @@ func (g *c14Group[P]) runMsmg(c *Ctx, variant string, n int, ps c14PSpec, pts []
 	}))
 }
 
-// runWindow emits the window-threshold cases of one group. maxK: largest exponent of the vector
-// lengths; vectors of length >= longFrom get the reduced set of scalar structures (full-size
-// pseudo-random, one bit per scalar over every bit position, raw scalars >= order).
-func runWindow[P any](c *Ctx, g *c14Group[P], stream uint64, maxK int, longFrom int) {
+// c14WindowPlan says how densely one group is covered. The Go ladder and bucket method are generic
+// code shared by all curves, so in the quick tier ONE curve gets every structured case and the
+// others a seed-dependent sample (every case is reached over the seeds; thorough: dense everywhere).
+type c14WindowPlan struct {
+	maxK     int   // vector lengths up to 2^maxK
+	longFrom int   // vectors of length >= longFrom get the reduced set of scalar structures
+	fullAt   []int // (sparse plans) the only lengths that get the full set
+	keep     int   // scalar-multiplication cases: keep one in `keep` (1 = all)
+	hugeFrom int   // vectors of length >= hugeFrom (if > 0) get ONE of the reduced structures
+}
+
+func (p c14WindowPlan) full(n int) bool {
+	if n >= p.longFrom {
+		return false
+	}
+	if p.fullAt == nil {
+		return true
+	}
+	for _, m := range p.fullAt {
+		if m == n {
+			return true
+		}
+	}
+	return false
+}
+
+// runWindow emits the window-threshold cases of one group. Vectors that do not get the full set of
+// scalar structures get the reduced one: full-size pseudo-random scalars, one bit per scalar over
+// every bit position, raw scalars >= order with one more byte.
+func runWindow[P any](c *Ctx, g *c14Group[P], stream uint64, plan c14WindowPlan) {
+	maxK := plan.maxK
 	r := NewRng(c.Seed, 14100+stream)
+	rs := NewRng(c.Seed, 14200+stream) // sampling of the scalar-multiplication cases
 	cn := g.cn
 	one := big.NewInt(1)
 	order := g.n
@@ -301,6 +331,9 @@ func runWindow[P any](c *Ctx, g *c14Group[P], stream uint64, maxK int, longFrom 
 
 	// ================= scalar multiplication
 	smulg := func(variant string, le []byte, m *big.Int) {
+		if plan.keep > 1 && rs.IntN(plan.keep) != 0 {
+			return
+		}
 		lhs := fmt.Sprintf("smulg %s %s %s %s", cn, variant, leBytesHex(le), hexNat(m))
 		c.Count(cn + ".smulg." + variant)
 		c.Emit(lhs, safely(func() string {
@@ -454,7 +487,7 @@ func runWindow[P any](c *Ctx, g *c14Group[P], stream uint64, maxK int, longFrom 
 		w := c14Width(n)
 		nw := (8*sl + w - 1) / w
 		big1 := big.NewInt(1)
-		long := n >= longFrom
+		long := !plan.full(n)
 		if n == 0 {
 			c.Note("TRIVIAL")
 			ps, pts := points(big1, big1, 0)
@@ -466,13 +499,23 @@ func runWindow[P any](c *Ctx, g *c14Group[P], stream uint64, maxK int, longFrom 
 		// --- points (i+1)·G
 		psLin, ptsLin := points(big1, big1, n)
 		// 1. full-size pseudo-random scalars (every window of every scalar populated)
-		a, b := r.BigBelow(order), r.BigBelow(order)
-		g.runMsmg(c, "pub", n, psLin, ptsLin, ssAffine(sl, a, b, order, n))
 		// 2. one set bit per scalar, cycling through every bit position below the order's top bit
-		g.runMsmg(c, "pub", n, psLin, ptsLin, ssBits(sl, order.BitLen()-1, n))
+		// R. raw path with scalars >= order and one more byte (numWindows changes)
+		a, b := r.BigBelow(order), r.BigBelow(order)
+		only := -1
+		if plan.hugeFrom > 0 && n >= plan.hugeFrom {
+			only = r.IntN(3)
+		}
+		if only < 0 || only == 0 {
+			g.runMsmg(c, "pub", n, psLin, ptsLin, ssAffine(sl, a, b, order, n))
+		}
+		if only < 0 || only == 1 {
+			g.runMsmg(c, "pub", n, psLin, ptsLin, ssBits(sl, order.BitLen()-1, n))
+		}
 		if long {
-			// raw path with scalars >= order and one more byte (numWindows changes)
-			g.runMsmg(c, "raw", n, psLin, ptsLin, ssAffine(sl+1, r.BigBelow(rawMod), r.BigBelow(rawMod), rawMod, n))
+			if only == 2 || (only < 0 && (plan.fullAt == nil || r.IntN(2) == 0)) {
+				g.runMsmg(c, "raw", n, psLin, ptsLin, ssAffine(sl+1, r.BigBelow(rawMod), r.BigBelow(rawMod), rawMod, n))
+			}
 			continue
 		}
 		// --- points descending through the identity: m_i = n/2 - i (negatives, cancelling pairs)
